@@ -102,6 +102,8 @@ where
     #[inline(always)]
     fn refill_buffer(&mut self) {
         let buffer_len = self.remaining_file_bytes().min(Self::NORMAL_BUFFER_SIZE);
+        #[cfg(feature = "verif_hooks")]
+        rawdb::verif::access(|| rawdb::verif::AccessEvent::File { offset: self.file_offset, len: buffer_len });
         self.file
             .read_exact(&mut self.buffer[..buffer_len])
             .expect("Failed to read file buffer");
